@@ -73,7 +73,21 @@ TDrop == IsOp("drop") /\ Drop(ev.h) /\ uname' = [uname EXCEPT ![ev.h] = ""] /\ U
 TRestart == /\ IsOp("restart") /\ Restart({ev.wipe[i] : i \in 1..Len(ev.wipe)})
             /\ proc' = NoProc /\ uname' = [h \in H |-> ""] /\ UNCHANGED nm
 
-TNext == TReset \/ TStart \/ TSetApp \/ TNewInfo \/ TNewSys \/ TNewUuid \/ TAsk \/ TDrop \/ TRestart
+\* Two more instances of the application built their AppUuidAttr at the same moment (handlers ev.h1, ev.h2, both free
+\* before).  The driver saw only the outcome, so the four steps - each instance's read and write - are events without
+\* arguments and TLC places them; the closing event carries what the two instances showed and what the settings hold.
+TRaceStep == /\ IsOp("rstep")
+             /\ \E h \in {ev.h1, ev.h2} : UuidRead(h) \/ UuidWrite(h)
+             /\ UNCHANGED <<proc, nm, uname>>
+TRaceEnd == /\ IsOp("rend")
+            /\ hs[ev.h1].k = "uuid" /\ hs[ev.h2].k = "uuid"
+            /\ hs[ev.h1].uuid = ev.u1 /\ hs[ev.h2].uuid = ev.u2
+            /\ store[app.id] = ev.stored
+            /\ WellFormedUuid(ev.uu1) /\ WellFormedUuid(ev.uu2)
+            /\ hs' = [hs EXCEPT ![ev.h1] = None, ![ev.h2] = None]       \* the two instances have ended
+            /\ UNCHANGED <<app, store, fresh, epoch, issued, proc, nm, uname>>
+
+TNext == TRaceStep \/ TRaceEnd \/ TReset \/ TStart \/ TSetApp \/ TNewInfo \/ TNewSys \/ TNewUuid \/ TAsk \/ TDrop \/ TRestart
 TraceSpec == TInit /\ [][TNext]_tvars
 TraceAccepted ==
     LET d == TLCGet("stats").diameter
